@@ -99,7 +99,7 @@ PROPS = {
         "assumptions": ["one connection never holds two aliases of one normalised query (Go map order)"],
     },
     "C15": {
-        "suites": [("gw", "malformed"), ("gw", "mixed"), ("gw", "mutate")],
+        "suites": [("gw", "malformed"), ("gw", "mixed"), ("gw", "mutate"), ("gw", "burst")],
         "theorems_carry": "malformed / wrong-kind / out-of-range state events are discarded as a whole (resource unchanged, nothing delivered); the matcher never indexes out of range; the throttle panics only on Done at zero",
         "correspondence_only": "process-level crash freedom: the gateway runs without recover inside the harness; a crash is a violation with the logged history as replay; corpus of two fixed crashes is replayed",
         "assumptions": ["panics inside encoding/json, gorilla, net/http are out of scope"],
